@@ -115,6 +115,11 @@ void Body(Tape& t, Outcome& o) {
     o.desc << " ; roundtrip(v" << vi << ")";
     MeshGL64 g = m.GetMeshGL64();
     Manifold m2(g);
+    if (m2.Status() != Manifold::Error::NoError && o.desc.str().find("Hull") != std::string::npos) {
+      // known finding F25: a Hull result with a doubled edge / repeated vertex is not importable
+      oracle::TopoReport trh = oracle::CheckManifold(m);
+      if (!trh.ok && (trh.sig == "topo:duplicate-edge" || trh.sig == "topo:degenerate-tri")) { o.known("F25-hull-duplicate-edge", "roundtrip:import-status-hull", trh.msg); return; }
+    }
     if (m2.Status() != Manifold::Error::NoError) { o.fail("roundtrip:import-status", verif::fmt("re-import of v%d's own export has Status %d", vi, int(m2.Status()))); return; }
     MeshGL64 g2 = m2.GetMeshGL64();
     if (g.numProp != g2.numProp) { o.fail("roundtrip:numProp", ""); return; }
